@@ -88,4 +88,9 @@ CHECKS = {
   "text": "About 200 histories per quick run (5000 thorough), each 1-8 steps with nesting depth up to 3; prior state (restricted selection, non-default and bounded parameters) is varied. Exploration level over histories x fault points.",
   "note": "Trusted: the harness snapshot (chains_idx, all parameter values, mask table, mask_factor flags, a private config key) and numpy array equality. No repository hook: faults are injected by wrapping a bound method of the instance.",
  },
+ "C06": {
+  "technique": "property-based testing against a reference model: generated structures, samples, signed weights, backgrounds, likelihood-model options, constraints and batch sizes; the reported NLL (fcn(), nll_grad()[0], fresh FCNs at other batch sizes) is compared with a numpy implementation of the defining formula on plain eager densities; metamorphic rescaling invariance",
+  "text": "64 generated likelihood cases per quick run (4 model families x 16 shards; 1500 per family thorough), each checked at 2-3 batch sizes. Exploration level.",
+  "note": "Trusted: numpy formula for each model (default/extended/cfit*/cached*/simple*), densities from one plain eager evaluation. Densities are kept above 1e-3 (clip_log branch excluded). The cached models are given two unequal batches (their per-batch tracing costs seconds).",
+ },
 }
